@@ -1,6 +1,7 @@
 """C16 Entry points never panic: the panic-SITE discipline (arithmetic magnitudes are declined)."""
 import json
 import os
+import re
 from .common import *
 from . import shared
 from engine.analysis import reachable_bodies, resolve_terms, storage_ops_deep
@@ -201,9 +202,11 @@ def run(R, env):
                 if how is None and cfg_opt:
                     R.ob("C16.R3", "optional-config-field-unwrapped", False, "%s of %s: validation allows this field to be absent, and no test of it dominates the site" % (kind, fmt(subj)[:140]), loc=b.loc(bi), fn=k)
                     continue
-                if how is None and (k, kind, d) in JUSTIFIED:
+                kk = re.sub(r"\{closure#\d+\}", "{closure}", k)
+                jk = next((j for j in JUSTIFIED if (re.sub(r"\{closure#\d+\}", "{closure}", j[0]), j[1], j[2]) == (kk, kind, d)), None)
+                if how is None and jk is not None:
                     how = "I4"
-                    used_just.add((k, kind, d))
+                    used_just.add(jk)
                 if how is None and kind == "unwrap" and d == "payload(Map::may_load(batches))" and any(is_load(prog, s_, "pending_batch_id", "staking") for s_ in subterms(subj)):
                     how = "I4'"  # the pending batch always exists (C06.R1 pairing of PENDING_BATCH_ID with BATCHES.save)
                 if how is None and (kind, d) in JUSTIFIED_ANYWHERE and (d != "serde_json::to_string" or any(s_[0] == "agg" and s_[1].endswith("oracle::Oracle") for s_ in subterms(subj))) and not k.endswith("::instantiate"):
@@ -242,6 +245,25 @@ def run(R, env):
                             how = "guarded by is_zero()"
                     if how is None and (k, nm.split("::")[-1]) in RATIO_JUSTIFIED:
                         how = "justified"
+                    if how is None and den[0] == "param" and b.kind == "fn":
+                        # the denominator is an argument of a small arithmetic helper: judge it at the call sites
+                        verdicts = []
+                        for cb2 in prog.fn_bodies(b.crate):
+                            for cbi, ct in cb2.calls():
+                                if ct.get("rkey") != k:
+                                    continue
+                                cc2 = Ctx(cb2)
+                                a2 = cc2.T.operand(ct["args"][den[1] - 1], cbi, len(cb2.blocks[cbi]["stmts"]))
+                                ok2 = const_int(a2) not in (None, 0)
+                                if not ok2:
+                                    w2 = cc2.assume_bool(lambda x, a2=a2: x[0] == "call" and x[1] in ("cosmwasm_std::Uint128::is_zero",) and norm(x[2][0]) == norm(a2), True).settle()
+                                    zt2 = [1 for _, atom in cc2.atoms() if atom[0] == "bool" and any(s_[0] == "call" and s_[1] == "cosmwasm_std::Uint128::is_zero" and norm(s_[2][0]) == norm(a2) for s_ in subterms(atom[1]))]
+                                    ok2 = bool(zt2) and cbi not in w2.T.reach
+                                if not ok2 and (cb2.key, nm.split("::")[-1]) in RATIO_JUSTIFIED:
+                                    ok2 = True
+                                verdicts.append(ok2)
+                        if verdicts and all(verdicts):
+                            how = "guarded / justified at every call site"
                     R.ob("C16.R5", "ratio:%s" % nm.split("::")[-1] + ":" + descr(prog, den), how is not None, "%s with denominator %s: the denominator can be zero on this path (no is_zero() test of it dominates the call, not a constant, not in the reviewed table): division by zero panics" % (short(nm), fmt(den)[:120]), loc=b.loc(bi), fn=k)
     # R6: 128-bit products of amounts
     def is_mul128(t):
